@@ -865,6 +865,155 @@ def run2():
 ''', [("run", [(0, [1, 1, 0]), (7, [1, 0]), (3, [])]), ("run2", [()])])
 
 
+# ---- new base classes / mixins: copied down only where the copy wins exactly where the base won
+case('''
+class _IndexMixin:
+    def has_index(self):
+        return self.idx is not None
+    def set_index(self, cols):
+        self.idx = list(cols)
+        return self.describe()
+
+class Table(_IndexMixin, dict):
+    def __init__(self):
+        self.idx = None
+    def describe(self):
+        return ("table", self.idx, self.has_index())
+
+class _GetLast:
+    def get(self, k, default=None):
+        return ("mixin-get", k)
+
+class Store(dict, _GetLast):
+    pass
+
+class _Counted:
+    def bump(self):
+        self.n = getattr(self, "n", 0) + 1
+        return self.n
+
+class A(_Counted):
+    pass
+
+class B(_Counted):
+    def bump(self):
+        return -1
+
+class _Base:
+    def who(self):
+        return "base"
+
+class Child(_Base):
+    def who(self):
+        return "child+" + super().who()
+
+class _Shape:
+    def area(self):
+        return 0
+
+class Sq(_Shape):
+    def area(self):
+        return 4
+
+def run():
+    t = Table()
+    r1 = (t.has_index(), t.set_index(["a"]), isinstance(t, dict))
+    s = Store(); s["k"] = 1
+    r2 = (s.get("k"), s.get("zz"))
+    a, b = A(), B()
+    r3 = (a.bump(), a.bump(), b.bump())
+    r4 = Child().who()
+    r5 = (Sq().area(), isinstance(Sq(), _Shape))
+    return r1, r2, r3, r4, r5
+''', [("run", [()])])
+
+
+# ---- new wrapping decorators and read-only properties
+case('''
+import functools
+
+LOG = []
+
+class Lock:
+    def __init__(self):
+        self.held = 0
+    def __enter__(self):
+        self.held += 1
+        LOG.append("acquire")
+    def __exit__(self, *a):
+        self.held -= 1
+        LOG.append("release")
+        return False
+    def locked(self):
+        return self.held > 0
+
+def _holding(method):
+    """run under the lock"""
+    @functools.wraps(method)
+    def locked_method(self, *args, **kwargs):
+        with self.lock:
+            return method(self, *args, **kwargs)
+    return locked_method
+
+def _requires(method):
+    @functools.wraps(method)
+    def checked(self, *args, **kwargs):
+        assert self.lock.locked(), "lock not held"
+        return method(self, *args, **kwargs)
+    return checked
+
+def _counting(method):
+    @functools.wraps(method)
+    def w(self, *args, **kwargs):
+        r = method(self, *args, **kwargs)
+        LOG.append(("called", len(args)))
+        return r
+    return w
+
+class Cache:
+    def __init__(self):
+        self.lock = Lock()
+        self.items = {}
+
+    @property
+    def _size(self):
+        LOG.append("size")
+        return len(self.items)
+
+    @_holding
+    def put(self, k, v=1):
+        """store"""
+        self._insert(k, v)
+        if k == "boom":
+            raise KeyError(k)
+        return self._size
+
+    @_requires
+    def _insert(self, k, v):
+        self.items[k] = v
+
+    @_counting
+    def peek(self, k):
+        return self.items.get(k)
+
+def run(keys):
+    LOG.clear()
+    c = Cache()
+    out = []
+    for k in keys:
+        try:
+            out.append(c.put(k, v=len(k)))
+        except KeyError as e:
+            out.append("KeyError")
+    try:
+        c._insert("x", 0)
+    except AssertionError as e:
+        out.append("assert " + str(e))
+    out.append(c.peek("a"))
+    return out, list(LOG), c.put.__name__
+''', [("run", [(["a", "bb"],), (["boom", "a"],), ([],)])])
+
+
 def outcome(ns, fn, args):
     import copy
     try:
@@ -884,7 +1033,9 @@ def main():
         for k, (src, calls) in enumerate(CASES):
             t0 = ast.parse(src)
             t1 = ast.parse(src)
+            flat = N.flatten_new_bases(f"case{k}", t1, set())
             stats = N.normalize(f"case{k}", t1)
+            stats["flattened_bases"] = flat
             ast.fix_missing_locations(t1)
             try:
                 code1 = compile(t1, f"<case{k} normalised>", "exec")
